@@ -453,7 +453,7 @@ def DrivePre (v : View) : Prop :=
 /-- At the `write` await of `perform_outbound_step`. -/
 def WritePre (v : View) (step : Outbound.Step) (bytes : Bytes) (written : Nat) : Prop :=
   Lv v (bytes.take written) ∧ v.o.Slot step ∧ step.state = .write written ∧ v.o.StepBytes step bytes ∧
-    written < bytes.length ∧ Framed bytes ∧ v.avail = false ∧ v.ok bytes
+    written < bytes.length ∧ Framed bytes ∧ v.avail = false ∧ v.ok bytes ∧ v.o.nextStep = some step
 
 /-- At the `flush` await of `perform_outbound_step`. -/
 def FlushingPre (v : View) (step : Outbound.Step) : Prop :=
@@ -484,6 +484,12 @@ def LocalFlushPre (v : View) (which : Nat) : Prop :=
   v.net = true ∧ SP v.sess ∧ v.o.Quiet ∧
   ((which = 0 ∧ Hand v ∧ Framed v.wire ∧ IsConnect v.wire) ∨ (which ≠ 0 ∧ v.avail = false ∧ Lv v []))
 
+/-- At the `read` await of `wait_for_progress`: the stored deadline is the session's next keep-alive
+deadline, the timer has been registered (`yielded`), and the reader has already probed the fixed header
+and offered a non-empty window — `receive_buffer` is idempotent, so a fresh call offers the same. -/
+def ReadOK (v : View) (d : Option Nat) (y : Bool) : Prop :=
+  y = true ∧ d = v.sess.rt.nextDeadline ∧ ∃ n, n ≠ 0 ∧ v.sess.window = some (v.sess, n)
+
 /-- The invariant at each await point. -/
 def PcOK (v : View) : Pc → Prop
   | .stepWrite _ pkt bytes written len _ => ∃ step, WritePre v step bytes written ∧ pkt = step.flushed ∧ len = bytes.length
@@ -495,7 +501,7 @@ def PcOK (v : View) : Pc → Prop
   | .q0Flush => LocalFlushPre v 1
   | .discWrite bytes => LocalPre v 2 bytes
   | .discFlush => LocalFlushPre v 2
-  | .waitRead _ _ _ => IdlePre v ∧ v.avail = false
+  | .waitRead _ d y => IdlePre v ∧ v.avail = false ∧ ReadOK v d y
 
 /-- What is kept about a connection that is not live (dead, dropped, or not yet established): its
 wire is whole packets and possibly the beginning of one more, and its log has each retained packet at
@@ -587,7 +593,7 @@ theorem WritePre.flushPre {v : View} {step : Outbound.Step} {bytes : Bytes} {wri
   obtain ⟨hl, hs, hst, hb, hlt, hfr, ha, hok⟩ := h
   cases written with
   | zero => exact ⟨[], by simpa using hl, .quiet (hs.quiet_of_fresh hst), ha⟩
-  | succ n => exact ⟨_, hl, .writing step n bytes hs hst hb hlt hfr hok, ha⟩
+  | succ n => exact ⟨_, hl, .writing step n bytes hs hst hb hlt hfr hok.1, ha⟩
 
 theorem FlushingPre.pfx {v : View} {step : Outbound.Step} (h : FlushingPre v step) : DeadOK v := ⟨h.1.wire.pfx_nil, h.1.log.sorted⟩
 
@@ -636,12 +642,12 @@ theorem FlushPre.writing {v : View} {step : Outbound.Step} {bytes : Bytes} {writ
   obtain ⟨hs, hc⟩ := ho.of_nextStep hl.sp.ids hn
   rcases hc with ⟨h1, rfl⟩ | ⟨h1, _⟩ | ⟨n, bytes', h1, hb', hlt, _, _, rfl⟩
   · rw [hst] at h1; cases h1
-    exact ⟨by simpa using hl, hs, hst, hb, hpos, hfr, ha, hok⟩
+    exact ⟨by simpa using hl, hs, hst, hb, hpos, hfr, ha, hok, hn⟩
   · rw [hst] at h1; cases h1
   · rw [hst] at h1; cases h1
     have := StepBytes_unique hb hb'
     subst this
-    exact ⟨hl, hs, hst, hb, hlt, hfr, ha, hok⟩
+    exact ⟨hl, hs, hst, hb, hlt, hfr, ha, hok, hn⟩
 
 /-- The transport accepted `count` more bytes of the current entry. When that completes the packet,
 the entry is recorded in the log of the transport. -/
@@ -686,7 +692,7 @@ theorem WritePre.advance {v : View} {step : Outbound.Step} {bytes : Bytes} {writ
       refine ⟨_, ⟨hl.net, hl.live, hsp, hwire, hlog', hacc' _ _, hack.1 hlt2, hrp.1⟩, ?_, ha⟩
       show (v.sess.setWritten step.flushed (n + 1) bytes.length).data.outbound.OState v.ok _
       rw [Session.setWritten_outbound]
-      exact .writing _ n bytes hslot (by simp) hbytes hlt2 hfr hok
+      exact .writing _ n bytes hslot (by simp) hbytes hlt2 hfr hok.1
   · intro hge
     have heq : wc = bytes.length := by omega
     subst heq
@@ -697,7 +703,7 @@ theorem WritePre.advance {v : View} {step : Outbound.Step} {bytes : Bytes} {writ
       rw [Session.setWritten_outbound]; exact hlog.2 (Nat.le_refl _)
     have hwire' : WireIs v.lim (v.wire ++ (bytes.drop written).take count)
         ((v.log ++ [v.o.done v.ord step.flushed]).map (·.bytes)) [] := by
-      have := hwire.closeLog hfr hok
+      have := hwire.closeLog hfr hok.1
       rw [List.map_append, List.map_cons, List.map_nil]
       show WireIs v.lim _ (v.log.map (·.bytes) ++ [(v.o.done v.ord step.flushed).bytes]) []
       rw [hdone]; exact this
@@ -1052,6 +1058,16 @@ theorem receiveWindow_idem {r r1 : Reader} {n : Nat} (h : r.receiveWindow = some
     rw [hfix]
     exact h
 
+theorem window_idem {s s1 : Session} {n : Nat} (h : s.window = some (s1, n)) : s1.window = some (s1, n) := by
+  unfold Session.window at h ⊢
+  split at h
+  · simp at h
+  · rename_i rd m hr
+    simp only [Option.some.injEq, Prod.mk.injEq] at h
+    obtain ⟨rfl, rfl⟩ := h
+    simp only []
+    rw [receiveWindow_idem hr]
+
 theorem receiveWindow_zero_avail {r r1 : Reader} (h : r.receiveWindow = some (r1, 0)) : r1.packetAvailable = true := by
   unfold Reader.receiveWindow at h
   simp only [] at h
@@ -1151,7 +1167,7 @@ def MachineW (fuel : Nat) : Prop :=
   (∀ w o adv, φDL w o adv ≤ fuel → DrivePre w.view → Post (driveLoop fuel w o adv)) ∧
   (∀ w o adv, φDAS w o adv ≤ fuel → DrivePre w.view → Post (driveAfterService fuel w o adv)) ∧
   (∀ w o, φDE w ≤ fuel → DrivePre w.view → Post (driveEnter fuel w o)) ∧
-  (∀ w o d y, φDWR w y ≤ fuel → IdlePre w.view → Post (doWaitRead fuel w o d y))
+  (∀ w o d y, φDWR w y ≤ fuel → IdlePre w.view → d = w.sess.rt.nextDeadline → Post (doWaitRead fuel w o d y))
 
 theorem φSR_le (w : World) (ctx : StepCtx) : φSR w ctx ≤ 1000 * mS w + 735 := by
   have := mK_le w; have := mRW_le w
@@ -1665,7 +1681,7 @@ theorem wire_driveAfterService (fuel : Nat) (ih : MachineW fuel) :
       · split
         · exact Post.live_finish _ hf
         · have ev := mV_not_avail hna'
-          exact i13 _ _ _ _ (by simp only [φDAS, φDWR, yN] at hfuel ⊢; simp only [Bool.false_eq_true, if_false]; omega) (h.none hn)
+          exact i13 _ _ _ _ (by simp only [φDAS, φDWR, yN] at hfuel ⊢; simp only [Bool.false_eq_true, if_false]; omega) (h.none hn) rfl
     · rename_i hsome
       have e4 : nN w = 1 := by
         cases hns : w.sess.data.outbound.nextStep with
@@ -1674,8 +1690,9 @@ theorem wire_driveAfterService (fuel : Nat) (ih : MachineW fuel) :
       exact i10 _ _ _ (by simp only [φDAS, φDL] at hfuel ⊢; omega) h
 
 theorem wire_doWaitRead (fuel : Nat) (ih : MachineW fuel) :
-    ∀ w o d y, φDWR w y ≤ fuel + 1 → IdlePre w.view → Post (doWaitRead (fuel + 1) w o d y) := by
-  intro w o d y hfuel h
+    ∀ w o d y, φDWR w y ≤ fuel + 1 → IdlePre w.view → d = w.sess.rt.nextDeadline →
+      Post (doWaitRead (fuel + 1) w o d y) := by
+  intro w o d y hfuel h hdl
   obtain ⟨_, _, _, _, _, _, _, _, _, _, _, i12, i13⟩ := ih
   have hy := yN_le y
   simp only [doWaitRead]
@@ -1725,20 +1742,28 @@ theorem wire_doWaitRead (fuel : Nat) (ih : MachineW fuel) :
             simp only [φDWR, mD] at hfuel; omega
           · show IdlePre { w'.view with sess := w'.view.sess.commit bytes }
             rw [hv]; exact ⟨⟨h1.1.1.sess (SessOK.same h1.1.1 (closed_SP.commit _ _ h1.1.1.sp) rfl rfl (Prim.commit _ _) rfl rfl), h1.1.2⟩, h1.2⟩
+          · show d = (w'.sess.commit bytes).rt.nextDeadline
+            rw [show (w'.sess.commit bytes).rt = w'.sess.rt from rfl, io_read_sess' heq]
+            show d = s1.rt.nextDeadline
+            rw [(window_fields hw).2]; exact hdl
         · rename_i w' heq
           have hv := ioRead_view h1.1.1.net heq
           obtain ⟨p1, p2, p3, p4, _⟩ := ioRead_pot heq
           have hq' : IdlePre w'.view := by rw [hv]; exact h1
           have ha' : w'.view.avail = false := by rw [hv]; exact hav1
+          have hs' : w'.sess = s1 := io_read_sess' heq
+          have hd' : d = w'.sess.rt.nextDeadline := by rw [hs', (window_fields hw).2]; exact hdl
+          have hro : ∀ dd, dd = d → ReadOK w'.view dd true := fun dd hdd =>
+            ⟨rfl, hdd.trans hd', window, hw0, by show w'.sess.window = some (w'.sess, window); rw [hs']; exact window_idem hw⟩
           split
-          · exact Post.suspend ⟨hq', ha'⟩
+          · exact Post.suspend ⟨hq', ha', hro _ rfl⟩
           · split
             · split
               · rename_i hyield
                 have ey : yN y = 1 := by simp [yN, hyield]
                 exact i12 _ _ (by simp only [φDWR, φDE, mD] at hfuel ⊢; omega) hq'.drive
               · split
-                · exact Post.suspend ⟨hq', ha'⟩
+                · exact Post.suspend ⟨hq', ha', hro _ rfl⟩
                 · rename_i hwk
                   have ek : mK ({ w' with wakes := w'.wakes + 1 } : World) + 1 = mK w' ∧ 1 ≤ mK ({ w' with wakes := w'.wakes + 1 } : World) := by
                     have e : mK ({ w' with wakes := w'.wakes + 1 } : World) = 64 - (w'.wakes + 1) := rfl
@@ -1748,8 +1773,8 @@ theorem wire_doWaitRead (fuel : Nat) (ih : MachineW fuel) :
                   have e7 : mRW ({ w' with wakes := w'.wakes + 1 } : World) = mRW w' := rfl
                   have e8 : mV ({ w' with wakes := w'.wakes + 1 } : World) = mV w' := rfl
                   have ey : yN true = 1 := rfl
-                  exact i13 _ _ _ _ (by simp only [φDWR, mD] at hfuel ⊢; omega) hq'
-            · exact Post.suspend ⟨hq', ha'⟩
+                  exact i13 _ _ _ _ (by simp only [φDWR, mD] at hfuel ⊢; omega) hq' hd'
+            · exact Post.suspend ⟨hq', ha', hro _ rfl⟩
 
 /-! ### `afterFlush`: what an operation does once the queues are drained -/
 
